@@ -78,6 +78,23 @@ var probeBattery = []probeCall{
 		sf := newSafeFmtV([]*Op{{K: "SafeString", S: B("a")}, {K: "Print", Args: []*Val{{K: "str", S: B("b")}}}, {K: "UnsafeRune", I: '‹'}}, 0)
 		return probeResult{out: []byte(redact.Sprintf("[%v]", sf))}
 	}},
+	{name: "nested-caught-panic", run: func() probeResult {
+		// a panicking Stringer printed by a nested printer (SafePrinter.Print)
+		sf := newSafeFmtV([]*Op{{K: "SafeString", S: B("a")},
+			{K: "Print", Args: []*Val{{K: "str", S: B("u")}, {K: "stringer!", S: B("x"), Sub: []*Val{{K: "str", S: B("boom")}}}}},
+			{K: "Printf", S: B("%d|%s"), Args: []*Val{{K: "int", I: 7}, {K: "SafeString", S: B("s")}}},
+			{K: "SafeString", S: B("z")}}, 0)
+		return probeResult{out: []byte(redact.Sprintf("[%v]", sf))}
+	}},
+	{name: "deep-nesting", run: func() probeResult {
+		// four printers checked out at once: reaches printers deeper in the pool
+		leaf := []*Op{{K: "SafeString", S: B("L")}, {K: "UnsafeString", S: B("u")},
+			{K: "Print", Args: []*Val{{K: "stringer!", S: B("x"), Sub: []*Val{{K: "str", S: B("p")}}}, {K: "int", I: 1}}}}
+		l3 := []*Op{{K: "Printf", S: B("3<%v %s>"), Args: []*Val{{K: "safefmt", Ops: leaf}, {K: "str", S: B("t")}}}}
+		l2 := []*Op{{K: "Print", Args: []*Val{{K: "safefmt", Ops: l3}, {K: "SafeInt", I: 2}}}}
+		l1 := []*Op{{K: "Printf", S: B("1<%v|%v>"), Args: []*Val{{K: "safefmt", Ops: l2}, {K: "str", S: B("w")}}}}
+		return probeResult{out: []byte(redact.Sprintf("%v %s", newSafeFmtV(l1, 0), "end"))}
+	}},
 	{name: "caught-panic", run: func() probeResult {
 		return probeResult{out: []byte(redact.Sprintf("%v|%d", StringerV{S: "x", pan: func() interface{} { return "boom" }}, 1))}
 	}},
